@@ -143,7 +143,7 @@ def run(st, tier, seed):
                 "documents in the compiler's spelling, and PIL emitted by the real compiler for examples; both layouts; "
                 "non-trivial = satisfiable document with >= 2 strands or a sup-sequence or a structure; distinct by (text, layout)")
     rng = core.rng_for(seed, "c04")
-    n_docs = 300 if tier == "quick" else 6000
+    n_docs = 300 if tier == "quick" else 10000
     reqs, expect = [], []
     with core.scratch("pepper_c04_") as d:
         for i in range(n_docs):
@@ -160,7 +160,7 @@ def run(st, tier, seed):
             for t in meta["tricks"]:
                 res.count("trick:" + t)
             res.count("strands<=4" if meta["strands"] <= 4 else "strands<=12" if meta["strands"] <= 12 else "strands>12")
-            check_doc(res, d, stmts, text, "generated:%d" % i, reqs, expect, spec_side=(tier == "quick" or i % 8 == 0))
+            check_doc(res, d, stmts, text, "generated:%d" % i, reqs, expect, spec_side=(tier == "quick" or i % 4 == 0))
         # compiler-emitted PIL
         compiled = 0
         for rel, args in EXAMPLES + (EXAMPLES_THOROUGH if tier == "thorough" else []):
